@@ -12,6 +12,8 @@ mod sandbox;
 mod unify;
 mod bip;
 mod lists;
+mod capture;
+mod solve;
 
 use serde_json::Value;
 
@@ -37,6 +39,7 @@ pub fn props_of(case: &Value) -> Vec<&'static str> {
         "unify" => unify::props_of(case),
         "bip" => bip::props_of(case),
         "mklist" | "rename" => lists::props_of(case),
+        "solve" => solve::props_of(case),
         _ => vec![],
     }
 }
@@ -46,6 +49,7 @@ pub fn run_case(case: &Value) -> Vec<Obs> {
     match case["t"].as_str().unwrap_or("") {
         "unify" => unify::replay(case),
         "bip" => bip::replay(case),
+        "solve" => solve::replay(case),
         "mklist" => lists::replay_mklist(case),
         "rename" => lists::replay_rename(case),
         "atoms" => bip::check_atoms(case),
